@@ -368,6 +368,20 @@ pub fn mutants(p: &Parent) -> Vec<Mutant> {
         v.insert(first_code, format!("macro jmx(t) -> {} t <-", ["jmp", "jz", "loop", "jnbe"][k]));
         push("undefined-jump-target-via-macro", format!("macro jmx used with {:?}", uses), v, at + 1);
     }
+    // a constant that is out of range for the position a macro pastes it into (the argument itself is a legal number)
+    for (k, (body, arg)) in [
+        ("mov al, v", "65535"), ("mov al, v", "0xFF80"), ("mov al, v", "256"), ("add bl, v", "0xFFFF"), ("cmp byte [bx], v", "65408"),
+        ("mov byte d_0, v", "0xFF00"), ("and cl, v", "0x100"), ("shl ax, v", "256"), ("int v", "256"), ("mov ax, word [bx, v]", "65536"),
+    ]
+    .iter()
+    .enumerate()
+    {
+        let mut v = b.clone();
+        let at = if k % 2 == 0 { p.live_pos } else { n };
+        v.insert(at.min(v.len()), format!("ldq({})", arg));
+        v.insert(first_code, format!("macro ldq(v) -> {} <-", body));
+        push("constant-out-of-range", format!("macro body '{}' used with argument {}", body, arg), v, at + 1);
+    }
     // one use of a macro whose body holds several jumps, only one of them to an undefined label (all jumps of one use
     // are recorded at the position of that use)
     for (k, (body, args)) in [
@@ -633,6 +647,25 @@ pub fn run(ctx: &Ctx) {
     if !cli_available() {
         ctx.harness_error("CLI binary not built");
         return;
+    }
+    // sources without a single instruction lack a code label 'start' too
+    for src in ["", "\n", "; only a comment\n", "d_0: db 5\n", "set 0x10\ndw [4]\n", "macro m(a) -> inc a <-\n", "d_0: db \"text\"\nmacro m(a) -> inc a <-\n; nothing else\n", "def f { }\n", "def f { nop }\n", "l1:\n", "start: db 1\n"] {
+        ctx.add_evals(1);
+        let out = run_cli(src.as_bytes(), Stdin::Closed, false, 1 << 20, 20_000);
+        let replay = json!({"kind":"cli","source":src,"stdin":"","interpreted":false,"require":["start"]});
+        if matches!(out.status, Status::Timeout | Status::SpawnError(_)) {
+            ctx.inconclusive(&format!("instruction-less source: {:?}", out.status));
+            continue;
+        }
+        let so = out.out_str();
+        if !out.clean() {
+            ctx.fail(Failure { key: "c14|cli|abnormal-exit|missing-start".into(), what: format!("source without instructions {:?}: status {:?} {}", src, out.status, out.err_str().lines().next().unwrap_or("")), replay });
+        } else if !(so.contains("necessary label 'start'") || so.contains("Syntax Error")) {
+            ctx.fail(Failure { key: "c14|cli|no-diagnostic|missing-start|no-instructions".into(), what: format!("a source without any instruction ({:?}) lacks a code label 'start' but no diagnostic was produced (stdout {:?})", src, so.chars().take(100).collect::<String>()), replay });
+        } else {
+            ctx.add_nontrivial(1);
+            ctx.class("c14/cli/no-instructions", 1);
+        }
     }
     let ncli = ctx.tier.pick(2_400usize, 60_000usize);
     run_cases(ctx, "c14-cli", ncli, || (raw_s(), any::<u16>()), eval_cli, |(r, sel)| {
